@@ -8,3 +8,5 @@ use std::cmp::{min, max};
 use std::collections::HashMap;
 use std::str::pattern::Pattern;
 use std::io;
+use std::path::{Path, PathBuf};
+use std::collections::VecDeque;
